@@ -136,11 +136,16 @@ def run_paths(prop, tier):
         out.rule = ("a replayed case is non-trivial if its expected value is a non-empty node-set or a scalar; "
                     "every case evaluates each of its spellings (6 quick / 12 thorough) on the real crates")
         out.assumptions = [
-            "documents: the pool of MC_XPath.tla (6 documents, <= 14 nodes; comments, PIs, attributes, mixed "
-            "content, DOCTYPE with entity, CDATA/char-ref/entity-ref inside merged text runs) plus seeded random "
-            "documents (<= 30 nodes) from xp-record; merged-text view only",
-            "expressions: the layered grammar of MC_XPath.tla (families p1 p2 un fl cmp fn ctx ar ar3) plus "
-            "seeded random expressions of depth <= 4; no variables, no id(), namespace axis not exercised",
+            "documents: the pool of MC_XPath.tla (8 documents, <= 22 nodes: comments, PIs, attributes, mixed content, "
+            "DOCTYPE with entity, CDATA/char-ref/entity-ref inside merged text runs, xml:lang, prefixed element and "
+            "attribute names with namespace nodes) plus seeded random documents (<= 30 nodes) from xp-record; "
+            "merged-text view only (the view xq/xe use)",
+            "expressions: the layered grammar of MC_XPath.tla (families p1 p2 un fl cmp fn ctx ns ar ar3) plus seeded "
+            "random expressions of depth <= 4; no variables, no id(); caller bindings: 4 prefix maps incl. swapped "
+            "prefixes and unbound prefixes (error expected)",
+            "not exercised: the namespace axis (namespace nodes have no identity through the public DOM API), default "
+            "namespaces (xmlns=...: unprefixed attributes inherit it in xml_dom::AsExpandedName, a C10 matter outside "
+            "/repo/xpath), DTD-defaulted attributes (all share id 0), position()/last() at the top level of a query",
             "numbers: exact dyadic values only (ScalarFns.tla); a value depending on an inexact result is not judged",
         ]
         _summary(out)
